@@ -32,7 +32,7 @@ func (o roImg) At(x, y int) color.Color { return o.inner.At(x, y) }
 
 var forceStructured bool
 
-var srcKinds = []string{"rgba64", "nrgba64", "rgba", "nrgba", "ycbcr444", "ycbcr422", "ycbcr420", "ycbcr440", "ycbcr411", "ycbcr410", "gray", "gray16", "cmyk", "paletted", "opaque"}
+var srcKinds = []string{"rgba64", "nrgba64", "rgba", "nrgba", "ycbcr444", "ycbcr422", "ycbcr420", "ycbcr440", "ycbcr411", "ycbcr410", "gray", "gray16", "cmyk", "paletted", "opaque", "nycbcra444", "nycbcra420", "nycbcra422", "alpha", "alpha16"}
 var dstKinds = []string{"rgba64", "rgba", "nrgba", "nrgba64", "opaque"}
 
 // newSource builds a source image of the given kind with bounds r and random content. For the
@@ -153,13 +153,25 @@ func newSource(rg *rng, kind string, r image.Rectangle) image.Image {
 		fill(m.Pix)
 		runs(m.Pix, 8)
 		return roImg{m.SubImage(r)}
+	case "alpha":
+		m := image.NewAlpha(outer)
+		fill(m.Pix)
+		return m.SubImage(r)
+	case "alpha16":
+		m := image.NewAlpha16(outer)
+		fill(m.Pix)
+		return m.SubImage(r)
+	}
+	ycc := kind
+	if len(kind) > 7 && kind[:7] == "nycbcra" {
+		ycc = "ycbcr" + kind[7:]
 	}
 	// the standard library's chroma-plane arithmetic is wrong for negative coordinates (integer
 	// division truncates): keep subsampled YCbCr images at non-negative, non-zero origins
 	if r.Min.X < 0 || r.Min.Y < 0 || outer.Min.X < 0 || outer.Min.Y < 0 {
 		// ... but where the standard library itself handles the negative geometry (every pixel of the
 		// sub-image can be read), use it as it is: half of the time, so both classes are generated
-		if rg.intn(2) == 0 {
+		if ycc == kind && rg.intn(2) == 0 {
 			if m := tryYCbCr(rg, kind, outer, r); m != nil {
 				return m
 			}
@@ -174,8 +186,31 @@ func newSource(rg *rng, kind string, r image.Rectangle) image.Image {
 		return newSource(rg, kind, r.Add(shift))
 	}
 	ratio := map[string]image.YCbCrSubsampleRatio{"ycbcr444": image.YCbCrSubsampleRatio444, "ycbcr422": image.YCbCrSubsampleRatio422, "ycbcr420": image.YCbCrSubsampleRatio420,
-		"ycbcr440": image.YCbCrSubsampleRatio440, "ycbcr411": image.YCbCrSubsampleRatio411, "ycbcr410": image.YCbCrSubsampleRatio410}[kind]
+		"ycbcr440": image.YCbCrSubsampleRatio440, "ycbcr411": image.YCbCrSubsampleRatio411, "ycbcr410": image.YCbCrSubsampleRatio410}[ycc]
+	// planes with their own strides: decoders allocate planes padded to block multiples, so a plane's
+	// stride need not be the image width, and the planes' strides need not agree with each other
+	restride := func(plane *[]uint8, stride *int, rows int) {
+		if rg.intn(2) == 0 {
+			*stride += 1 + rg.intn(9)
+			*plane = make([]uint8, *stride*rows+rg.intn(3))
+		}
+	}
+	if ycc != kind {
+		m := image.NewNYCbCrA(outer, ratio)
+		restride(&m.A, &m.AStride, outer.Dy())
+		if rg.intn(3) == 0 {
+			restride(&m.Y, &m.YStride, outer.Dy())
+		}
+		fill(m.Y)
+		fill(m.Cb)
+		fill(m.Cr)
+		fill(m.A)
+		return m.SubImage(r)
+	}
 	m := image.NewYCbCr(outer, ratio)
+	if rg.intn(3) == 0 {
+		restride(&m.Y, &m.YStride, outer.Dy())
+	}
 	fill(m.Y)
 	fill(m.Cb)
 	fill(m.Cr)
@@ -715,6 +750,12 @@ func snapshot(img image.Image) []byte {
 		return append([]byte{}, m.Pix...)
 	case *image.YCbCr:
 		return append(append(append([]byte{}, m.Y...), m.Cb...), m.Cr...)
+	case *image.NYCbCrA:
+		return append(append(append(append([]byte{}, m.Y...), m.Cb...), m.Cr...), m.A...)
+	case *image.Alpha:
+		return append([]byte{}, m.Pix...)
+	case *image.Alpha16:
+		return append([]byte{}, m.Pix...)
 	case roImg:
 		return snapshot(m.inner)
 	}
